@@ -744,7 +744,7 @@ pub fn family(out: &mut Out, family: &str, tier: &Tier, rng: &mut Rng) {
                 c.invocations = 1 + rng.below(4);
                 c
             }
-            "twice" => { let d = rng.below(3); let g = gen_committed(rng, d); let mut c = mk(token_text(rng, 9, &[',', ';', '[', ']', '(', ')']), rng, g); c.sink = i % 2 == 0; c }
+            "twice" => { let d = rng.below(3); let g = gen_committed(rng, d); let mut c = mk(token_text(rng, 9, &[',', ';', '[', ']', '(', ')']), rng, g); c.sink = i % 2 == 0; c.nctx = if rng.chance(1, 3) { 1 + rng.below(2) } else { 0 }; c }
             "scoped" => { let g = gen_scoped(rng); let mut c = mk(token_text(rng, 8, &[';', ',']), rng, g); c.sink = rng.chance(3, 4); c.nctx = rng.below(4); c }
             "ctxops" => {
                 let mut t = 0;
